@@ -49,6 +49,13 @@ def programs():
     out.append(dict(label="STR-cap0", src='out str[1] e; out int{unsigned, size 1} z1 = 165; hook h; parser { try { e += /a+/; } catch (outofspace) { h(); } "b"; }\n', argv=[], alphabet=list(b"ab"), sentinels={"z1": 165}, uses_oob_index=False))
     out.append(dict(label="STR-exact", src='out unterminated str[3] u = "abc"; out int{unsigned, size 1} z1 = 165; out str[4] s = "abc"; out int{unsigned, size 1} z2 = 165; hook h; parser { h(); loop { case { "a" -> { u = "xyz"; s = "xyz"; } "b" -> { delete u; u += /[xy]+/; ";"; } "c" -> { try { s += /[xy]/; } catch (outofspace) { delete s; h(); } } } } }\n',
                     argv=[], alphabet=list(b"abcxy;"), sentinels={"z1": 165, "z2": 165}, uses_oob_index=False))
+    # a default-valued string whose only delete is nested (inside an action-only if / directly after a loop left by break): under on-demand
+    # allocation with freeing deletes the buffer can be NULL afterwards although no transition carries a plain delete
+    common = ' "g" -> { s += [67]; } "o" -> { s = "q"; } "j" -> { n = [s.len + s[0]]; h(); } "t" -> { n = 1; }'
+    out.append(dict(label="STR-nested-delete", src='out str[3] s = "ab"; out int{unsigned, size 1} z1 = 165; out int{unsigned, size 1} n = 0; hook h; parser { loop { try { case { "d" -> { if n == 0 { delete s; } else { n = 0; } }'
+                    + common + ' } } catch (outofspace) { s = "z"; h(); } } }\n', argv=[], alphabet=list(b"dgojt"), sentinels={"z1": 165}, uses_oob_index=True))
+    out.append(dict(label="STR-afterloop-delete", src='out str[3] s = "ab"; out int{unsigned, size 1} z1 = 165; out int{unsigned, size 1} n = 0; hook h; parser { loop { try { case { "k" -> { loop { /[xy]/; if $last == \'y\' { break; } } delete s; }'
+                    + common + ' } } catch (outofspace) { s = "z"; h(); } } }\n', argv=[], alphabet=list(b"kygoj"), sentinels={"z1": 165}, uses_oob_index=True))
     # in-range reads of a buffer that does not exist (yet / any more); only under storage modes where every byte read is defined
     out.append(dict(label="STR-nullread", src='out str[3] s; out int{unsigned, size 1} z1 = 165; out int n = 0; hook h; parser { loop { case { "r" -> { n = [s[0] + s[2] + s[5]]; h(); } "w" -> { s = "ab"; } "d" -> { delete s; } "i" -> { if s[1] == \'b\' { h(); } } } } }\n',
                     argv=[], alphabet=list(b"rwdi"), sentinels={"z1": 165}, uses_oob_index=True, storage_only=[[], ["-fallocate-str-space-dynamic-on-demand"], ["-fallocate-str-space-dynamic-on-demand", "-fdelete-string-free-memory"]]))
